@@ -487,3 +487,11 @@ EXPORT uint16_t SHIM(pseudo_get)(void* h, int word) {
     }
     return 0;
 }
+
+// the same flat <-> RegisterState conversion for a RegisterState that lives elsewhere (Teakra::GetRegisterState())
+EXPORT void SHIM(regs_get)(const void* regs, FState* s) {
+    get_state(*(const RegisterState*)regs, *s);
+}
+EXPORT void SHIM(regs_set)(void* regs, const FState* s) {
+    set_state(*(RegisterState*)regs, *s);
+}
